@@ -154,6 +154,7 @@ func (r *Run) MustHold(o TLCOpts) *TLCResult {
 		return nil
 	}
 	r.Logf("TLC %s/%s: %s, %d distinct / %d generated states, %.1fs", o.Module, o.Config, res.Status, res.Distinct, res.Generated, res.Wall.Seconds())
+	r.noteTLC(map[string]any{"module": o.Module, "config": o.Config, "expect": "no error", "status": res.Status, "distinct_states": res.Distinct, "generated_states": res.Generated, "wall_s": res.Wall.Seconds()})
 	if res.Status != "ok" {
 		r.Infra("TLC run %s (%s) ended with status %s %s (model-level result only; tail: %s)", o.Module, o.Config, res.Status, res.Violated, tail(res.Out, 1500))
 		return res
@@ -174,6 +175,7 @@ func (r *Run) MustFail(o TLCOpts, wantInvariant string) bool {
 		ok = res.Status == "deadlock"
 	}
 	r.Logf("TLC mutant %s/%s: %s %s (want %s) %.1fs", o.Module, o.Config, res.Status, res.Violated, wantInvariant, res.Wall.Seconds())
+	r.noteTLC(map[string]any{"module": o.Module, "config": o.Config, "expect": "design mutant / as-is variant: TLC must find a violation", "status": res.Status, "violated": res.Violated, "wall_s": res.Wall.Seconds()})
 	if !ok {
 		r.Infra("design mutant %s/%s was not caught: status %s %s; tail: %s", o.Module, o.Config, res.Status, res.Violated, tail(res.Out, 800))
 	}
